@@ -67,6 +67,14 @@ def gen_case(rng, tier, avoid):
         del w1['input_chunk_size']
     if data:
         w1['data'] = data
+    minrows = min([rc['shape'][0] for op in spec.ops if op.get('op') == 'add' and op.get('kind') == 'channel'
+                   for rc in [op['kwargs']['data']['$arr']]] or [1])
+    if rng.random() < 0.25 and minrows > 1:
+        # a row window: one record per selected input row, numbered from 1
+        a = rng.randint(0, minrows - 1)
+        w1['from_idx'] = a
+        if rng.random() < 0.7:
+            w1['to_idx'] = rng.randint(a + 1, minrows)
     writes = [w1]
     if rng.random() < 0.3 and kind in ('dict', 'inline') and not own_sets:
         # second write with other data (same widths; other dtype unless the persisted-cast finding is avoided)
